@@ -138,12 +138,16 @@ impl QueryEngine {
         chunk_paths: &[String],
         sql: &str,
     ) -> Result<DataFrame> {
+        #[cfg(feature = "verif-hooks")]
+        crate::verif_hooks::pause("query:before_register").await;
         let plan = {
             let _guard = self.metrics_table_query_lock.lock().await;
             self.register_metrics_table_for_chunks_locked(chunk_paths)
                 .await?;
             self.plan_read_only(sql).await?
         };
+        #[cfg(feature = "verif-hooks")]
+        crate::verif_hooks::pause("query:after_plan").await;
         Ok(plan)
     }
 
